@@ -102,6 +102,10 @@ class Ctx:
         acc = [t for t, r in v.items() if r["accept"]]
         self.cov["negative_controls"][name] = {"supplied": len(corrupted), "rejected": len(corrupted) - len(acc)}
         if acc:
+            if self.violations:
+                # the run already has violations to report: an accepted control is recorded, it must not mask them
+                self.cov["negative_controls"][name]["accepted_tids"] = acc[:5]
+                return
             raise MachineryError("negative control accepted by %s: tids %s" % (module, acc[:5]))
 
     # ---------------- bookkeeping ----------------
